@@ -143,8 +143,26 @@ def owner_insts(tier):
     return out
 
 
+def destroy_keeps_registrations_inst(tier):
+    """destroy_sandbox ends no registration: the keys stay with their (still live) owner objects, whose unregistration is
+    ignored while the sandbox is not created and effective again once it is re-created - 'registered keys = live owners'
+    across destroy / re-create.  (C14's wish that nothing of an earlier incarnation be visible is the opposite demand on the
+    same list; with owners that cannot be invalidated from the sandbox side both cannot hold - see KF-C14-stale-state.)"""
+    from . import C14
+    it = C14.destroy_inst(tier, clause_recreate=False)
+    it.name = 'c13_destroy_sandbox_keeps_registrations'
+    it.prop = PROP
+    K_ = '$this->callback_keys'
+    it.contract = [c for c in it.contract if c[0] != 'frame'] + [
+        ('keys_env', '__CPROVER_requires(%s.len <= 2 && %s.cap == 4 && __CPROVER_rw_ok(%s.elem, 4 * sizeof(void *)))' % (K_, K_, K_)),
+        ('registrations_stay_with_their_owners', '__CPROVER_ensures(%s.len == __CPROVER_old(%s.len) && (0 < %s.len ==> %s.elem[0] == __CPROVER_old(%s.elem[0])) && (1 < %s.len ==> %s.elem[1] == __CPROVER_old(%s.elem[1])))' % (K_, K_, K_, K_, K_, K_, K_, K_)),
+    ] + [c for c in it.contract if c[0] == 'frame']
+    it.harness = it.harness.replace('  $ROOT(&sb);', '  void *karr[4]; unsigned long in_klen; __CPROVER_assume(in_klen <= 2); sb.callback_keys.len = in_klen; sb.callback_keys.elem = karr; sb.callback_keys.cap = 4;\n  $ROOT(&sb);')
+    return it
+
+
 def units(tier):
-    return [Unit('C13_callback_ownership', [register_inst(tier), unregister_cb_inst(tier)] + owner_insts(tier))]
+    return [Unit('C13_callback_ownership', [register_inst(tier), unregister_cb_inst(tier), destroy_keeps_registrations_inst(tier)] + owner_insts(tier))]
 
 
 ASSUMPTIONS = [
